@@ -29,6 +29,8 @@ type Series struct {
 	B string `json:"b"`
 	C string `json:"c"`
 	V int    `json:"v"`
+	// D is a label no generated query ever names (only in the wide databases of the EXEC pool; "" = absent).
+	D string `json:"d,omitempty"`
 }
 
 func (s Series) Labels() labels.Labels {
@@ -42,11 +44,12 @@ func (s Series) Labels() labels.Labels {
 	set("a", s.A)
 	set("b", s.B)
 	set("c", s.C)
+	set("d", s.D)
 	return b.Labels()
 }
 
 // Key is the label part as a string.
-func (s Series) Key() string { return s.N + "|" + s.A + "|" + s.B + "|" + s.C }
+func (s Series) Key() string { return s.N + "|" + s.A + "|" + s.B + "|" + s.C + "|" + s.D }
 
 // NameSet lists the abstract names of the labels the series carries, e.g. "ab", "n", "".
 func (s Series) NameSet() string {
@@ -59,6 +62,9 @@ func (s Series) NameSet() string {
 	}
 	if s.C != "-" {
 		out += "c"
+	}
+	if s.D != "" && s.D != "-" {
+		out += "d"
 	}
 	if s.N != "-" {
 		out += "n"
@@ -187,6 +193,8 @@ func fromLabels(l labels.Labels, f float64) (Series, error) {
 			if s.C == "-0" { // count_values of a negative zero; the value domain of the specification has one zero
 				s.C = "0"
 			}
+		case "d":
+			s.D = lb.Value
 		default:
 			bad = fmt.Errorf("label %q outside the universe", lb.Name)
 		}
